@@ -10,6 +10,8 @@ import (
 	"fmt"
 	"math/big"
 	"os"
+	"runtime"
+	"runtime/debug"
 	"sort"
 	"sync"
 	"testing"
@@ -102,6 +104,7 @@ type SimCfg struct {
 	Param      int     `json:"param,omitempty"`
 	Seed       uint64  `json:"sched_seed"`
 	PoolBuggy  bool    `json:"pool_buggify,omitempty"`
+	PoolMode   int     `json:"pool_mode,omitempty"` // 0 mixed, 1 never recycle, 2 always recycle
 	MapShuffle bool    `json:"map_shuffle,omitempty"`
 	Choices    []int32 `json:"choices,omitempty"` // explicit schedule (replay files); nil = policy+seed
 	MaxSteps   int     `json:"max_steps,omitempty"`
@@ -153,7 +156,10 @@ func GenSimCfg(r *Rng, near int, maxCPU int) SimCfg {
 		c.GoMaxProcs = 1 + r.Intn(c.NumCPU+4)
 	}
 	c.Seed = r.U64()
-	c.PoolBuggy = r.Bool()
+	// the real sync.Pool (per-P caches, emptied by the GC) is a source of nondeterminism the
+	// simulator does not control: the simulated pool is always on, in one of three moods
+	c.PoolBuggy = true
+	c.PoolMode = r.Pick([]int{0, 0, 1, 2})
 	c.MapShuffle = r.Bool()
 	return c
 }
@@ -161,7 +167,7 @@ func GenSimCfg(r *Rng, near int, maxCPU int) SimCfg {
 func (c SimCfg) toSim(record bool, est int) verifsim.Config {
 	return verifsim.Config{
 		NumCPU: c.NumCPU, GoMaxProcs: c.GoMaxProcs, Policy: policyID(c.Policy), Param: c.Param, Seed: c.Seed,
-		Choices: c.Choices, MaxSteps: c.MaxSteps, PoolBuggy: c.PoolBuggy, MapShuffle: c.MapShuffle,
+		Choices: c.Choices, MaxSteps: c.MaxSteps, PoolBuggy: c.PoolBuggy, PoolMode: c.PoolMode, MapShuffle: c.MapShuffle,
 		Record: record, EstSteps: est,
 	}
 }
@@ -507,8 +513,18 @@ func (e *Env) FreshConfig() bool {
 	if e.CachePath == "" || !e.CfgFromCache {
 		return false
 	}
+	// drop the old copy first: two 350 MB configurations (times the race detector's shadow
+	// memory) per worker are too much for 16 workers
+	e.cfg = nil
+	runtime.GC()
+	debug.FreeOSMemory()
 	c, err := LoadConfigCache(e.CachePath)
 	if err != nil {
+		c, err = ipa.NewIPASettings()
+		if err != nil {
+			panic(err)
+		}
+		e.cfg = c
 		return false
 	}
 	e.cfg = c
